@@ -72,3 +72,58 @@ pub fn gen_dyn(c: &mut Choice) -> m::Dyn {
 pub fn gen_chdr(c: &mut Choice) -> m::Chdr {
     m::Chdr { ch_type: c.field(32) as u32, ch_reserved: c.field(32) as u32, ch_size: c.field(64), ch_addralign: c.field(64) }
 }
+
+/// Field-by-field equality of the crate's structures. The oracles do not rely on the crate's own `PartialEq`
+/// impls: a change to one of those (say, an `Ord`-consistent `PartialEq` that ignores a field) must not blind them.
+pub trait FieldEq {
+    fn field_eq(&self, o: &Self) -> bool;
+}
+macro_rules! field_eq {
+    ($t:ty; $($f:ident),+) => {
+        impl FieldEq for $t {
+            fn field_eq(&self, o: &Self) -> bool {
+                true $(&& self.$f == o.$f)+
+            }
+        }
+    };
+}
+field_eq!(SectionHeader; sh_name, sh_type, sh_flags, sh_addr, sh_offset, sh_size, sh_link, sh_info, sh_addralign, sh_entsize);
+field_eq!(ProgramHeader; p_type, p_offset, p_vaddr, p_paddr, p_filesz, p_memsz, p_flags, p_align);
+field_eq!(Symbol; st_name, st_shndx, st_info, st_other, st_value, st_size);
+field_eq!(Rel; r_offset, r_sym, r_type);
+field_eq!(Rela; r_offset, r_sym, r_type, r_addend);
+field_eq!(CompressionHeader; ch_type, ch_size, ch_addralign);
+field_eq!(elf::hash::SysVHashHeader; nbucket, nchain);
+field_eq!(elf::hash::GnuHashHeader; nbucket, table_start_idx, nbloom, nshift);
+field_eq!(elf::note::NoteGnuAbiTag; os, major, minor, subminor);
+impl FieldEq for u32 {
+    fn field_eq(&self, o: &Self) -> bool {
+        self == o
+    }
+}
+impl FieldEq for u64 {
+    fn field_eq(&self, o: &Self) -> bool {
+        self == o
+    }
+}
+impl<E: EndianParse + PartialEq> FieldEq for elf::file::FileHeader<E> {
+    fn field_eq(&self, o: &Self) -> bool {
+        self.class == o.class
+            && self.endianness == o.endianness
+            && self.version == o.version
+            && self.osabi == o.osabi
+            && self.abiversion == o.abiversion
+            && self.e_type == o.e_type
+            && self.e_machine == o.e_machine
+            && self.e_entry == o.e_entry
+            && self.e_phoff == o.e_phoff
+            && self.e_shoff == o.e_shoff
+            && self.e_flags == o.e_flags
+            && self.e_ehsize == o.e_ehsize
+            && self.e_phentsize == o.e_phentsize
+            && self.e_phnum == o.e_phnum
+            && self.e_shentsize == o.e_shentsize
+            && self.e_shnum == o.e_shnum
+            && self.e_shstrndx == o.e_shstrndx
+    }
+}
